@@ -58,6 +58,22 @@ class SyncSuite(Suite):
         src = {"kind": kind, "tree": tree}
         if kind == "mem" and rng.random() < 0.2:
             src["eof_with_data"] = True      # the source's readers deliver their last bytes together with io.EOF
+        links = [e for e in tree if e["t"] == "hardlink"]
+        # (only in the plain sync suite: such a view is not consistent with itself, so "unchanged re-sync is silent" and the exact
+        # change set are not defined for it)
+        if type(self) is SyncSuite and kind == "mem" and links and rng.random() < 0.15 and not opt.get("merge") and opt.get("differ") != "none":
+            # a source inode touched while the tree was being walked: a later name of a hard-link group is announced with another
+            # time stamp than the first; the destination already holds the group as it was
+            by = {e["p"]: e for e in tree}
+            l = rng.choice(links)
+            if by.get(l["ln"], {}).get("t") == "file":
+                l["lmt"] = by[l["ln"]]["mt"] + rng.choice([1, 1000000000, 5000000000])
+                dst = [dict(e) for e in tree]
+                for e in dst:
+                    e.pop("lmt", None)
+                    e.pop("hole", None)
+                if rng.random() < 0.5:
+                    dst = gen.mutate_disk_tree(rng, dst, 1)
         return {"op": "sync", "src": src, "dst": dst, "opt": opt}
 
     def gen_unpriv(self, rng):
@@ -148,7 +164,16 @@ class SyncSuite(Suite):
         if inot != mnot:
             agree = False
             notes.append("notifications impl=%s model=%s" % (inot[:6], mnot[:6]))
-        if "c01" in self.focus and model.get("c01") is False:
+        racy = any(e.get("lmt") for e in op["src"]["tree"])
+        if racy:
+            # a view that reports one inode with different time stamps under two of its names (touched during the walk) cannot be met
+            # in the time stamps; what is judged is the path set: nothing but the view's entries, every one of them there
+            vp = {e["p"] for e in impl.get("view", [])}
+            ap = {e["p"] for e in impl.get("after", [])}
+            if "c01" in self.focus and vp != ap:
+                ok = False
+                notes.append("C01: destination paths differ from the view's (only in the destination: %s; missing: %s)" % (sorted(ap - vp)[:4], sorted(vp - ap)[:4]))
+        elif "c01" in self.focus and model.get("c01") is False:
             ok = False
             notes.append("C01: " + str(model.get("c01_why")))
         if "c02" in self.focus:
@@ -604,7 +629,7 @@ class SwapRace(SyncSuite):
             src.append(e)
         src.sort(key=lambda e: [c for c in bytes.fromhex(e["p"]).split(b"/")])
         dst.sort(key=lambda e: [c for c in bytes.fromhex(e["p"]).split(b"/")])
-        opt = {"notify": True, "cap": rng.choice([4, 32, 64]), "seed": rng.randrange(1 << 30), "timeout_ms": 1500}
+        opt = {"notify": True, "cap": rng.choice([4, 32, 64]), "seed": rng.randrange(1 << 30), "timeout_ms": 5000}
         return {"op": "sync", "src": {"kind": rng.choice(["mem", "disk"]), "tree": src}, "dst": dst, "opt": opt}
 
     def run_impl(self, vh, ops):
